@@ -363,6 +363,10 @@ func sharedReplay(in, out string) error {
 func main() {
 	var err error
 	switch {
+	case len(os.Args) == 5 && os.Args[1] == "sharedconc":
+		seed, _ := strconv.ParseInt(os.Args[2], 10, 64)
+		rounds, _ := strconv.Atoi(os.Args[3])
+		err = sharedConc(seed, rounds, os.Args[4])
 	case len(os.Args) == 5 && os.Args[1] == "svc":
 		seed, _ := strconv.ParseInt(os.Args[2], 10, 64)
 		rounds, _ := strconv.Atoi(os.Args[3])
@@ -384,4 +388,92 @@ func main() {
 		fmt.Fprintln(os.Stderr, err)
 		os.Exit(3)
 	}
+}
+
+// ------------------------------------------------------------------------------------- shared component, concurrent
+
+// rawHost records what the shared component's wrapper hands to one instance (before that instance's state machine).
+type rawHost struct {
+	mu  sync.Mutex
+	got []string
+}
+
+func (h *rawHost) GetExtensions() map[component.ID]component.Component { return nil }
+func (h *rawHost) Report(ev *componentstatus.Event) {
+	h.mu.Lock()
+	h.got = append(h.got, nameOf(ev.Status()))
+	h.mu.Unlock()
+}
+
+type sconcRec struct {
+	Ev string   `json:"ev"`
+	R  []string `json:"r"`  // statuses the component reported, in order (one reporter goroutine)
+	Q1 []string `json:"q1"` // what instance 1 (attached from the start) was handed
+	Q2 []string `json:"q2"` // what instance 2 (attached concurrently) was handed
+}
+
+// sharedConc: the component reports from its own goroutine while a second instance attaches.  Whatever the schedule, the
+// late instance must be handed the remembered history (last 5) up to SOME point of the report sequence and every later
+// report after it, in order (SharedConcTrace.tla).
+func sharedConc(seed int64, rounds int, out string) error {
+	rng := rand.New(rand.NewSource(seed))
+	f, err := os.Create(out)
+	if err != nil {
+		return err
+	}
+	defer f.Close()
+	w := bufio.NewWriter(f)
+	defer w.Flush()
+	enc := json.NewEncoder(w)
+	cycle := []string{"RecoverableError", "OK", "RecoverableError", "OK", "PermanentError", "OK", "FatalError", "RecoverableError"}
+	for r := 0; r < rounds; r++ {
+		comp := &scomp{}
+		m := sharedcomponent.NewMap[string, *scomp]()
+		shared, _ := m.LoadOrStore("key", func() (*scomp, error) { return comp, nil })
+		h1, h2 := &rawHost{}, &rawHost{}
+		ctx := context.Background()
+		_ = shared.Start(ctx, h1)
+		n := 1 + rng.Intn(4)
+		off := rng.Intn(len(cycle))
+		pre := rng.Intn(3) // reports made before the race starts
+		var reps []string
+		for i := 0; i < pre; i++ {
+			s := cycle[(off+i)%len(cycle)]
+			componentstatus.ReportStatus(comp.host, componentstatus.NewEvent(byName[s]))
+			reps = append(reps, s)
+		}
+		var start atomic.Bool
+		var ready atomic.Int32
+		var wg sync.WaitGroup
+		wg.Add(2)
+		go func() {
+			defer wg.Done()
+			ready.Add(1)
+			for !start.Load() {
+			}
+			for i := 0; i < n; i++ {
+				s := cycle[(off+pre+i)%len(cycle)]
+				componentstatus.ReportStatus(comp.host, componentstatus.NewEvent(byName[s]))
+				reps = append(reps, s)
+			}
+		}()
+		go func() {
+			defer wg.Done()
+			ready.Add(1)
+			for !start.Load() {
+			}
+			for k := rng.Intn(40); k > 0; k-- { // a little jitter
+			}
+			_ = shared.Start(ctx, h2)
+		}()
+		for ready.Load() < 2 {
+			runtime.Gosched()
+		}
+		start.Store(true)
+		wg.Wait()
+		if err := enc.Encode(sconcRec{Ev: "round", R: reps, Q1: h1.got, Q2: append([]string{}, h2.got...)}); err != nil {
+			return err
+		}
+	}
+	return enc.Encode(sconcRec{Ev: "end", R: []string{}, Q1: []string{}, Q2: []string{}})
 }
